@@ -4,6 +4,7 @@ package main
 
 import (
 	"context"
+	"sync/atomic"
 
 	"github.com/ichiban/prolog/engine"
 
@@ -12,79 +13,112 @@ import (
 
 const hooksOn = true
 
-// stepState is the logical clock and the step-budget canceller of the current API call.
+// stepState is the logical clock and the step-budget canceller of the current API call. The hooks only
+// count trampoline iterations that belong to the context of the current call: after Solutions.Close the
+// query goroutine of the previous call may still make one or two iterations concurrently with the next
+// call; those are ignored (they would otherwise race on the counters).
 type stepState struct {
+	ctx      context.Context
 	steps    int64
 	budget   int64
 	cancel   context.CancelFunc
 	hit      bool
 	maxDepth int
-	onStep   func(n int64) // extra observer (cancel cases)
+	onStep   func(n int64, depth int) // extra observer (cancel cases)
+	counters *proto.Counters
 }
 
-var cur stepState
+var curp atomic.Pointer[stepState]
+
+// cur returns the state of the current call (never nil).
+func curState() *stepState {
+	if st := curp.Load(); st != nil {
+		return st
+	}
+	return &stepState{}
+}
+
 var counters *proto.Counters
+
+func beginState(ctx context.Context, budget int64, cancel context.CancelFunc) *stepState {
+	st := &stepState{ctx: ctx, budget: budget, cancel: cancel, counters: counters}
+	curp.Store(st)
+	return st
+}
 
 func installHooks() {
 	engine.VerifOnStep = func(ctx context.Context, depth int) {
-		cur.steps++
-		if depth > cur.maxDepth {
-			cur.maxDepth = depth
-		}
-		if counters != nil {
-			counters.Steps++
-			if depth > counters.MaxDepth {
-				counters.MaxDepth = depth
-			}
-		}
-		if cur.budget > 0 && cur.steps >= cur.budget && !cur.hit {
-			cur.hit = true
-			if cur.cancel != nil {
-				cur.cancel()
-			}
-		}
-		if cur.onStep != nil {
-			cur.onStep(cur.steps)
-		}
-	}
-	engine.VerifOnCut = func(before, after int) {
-		if counters == nil {
+		st := curp.Load()
+		if st == nil || st.ctx != ctx {
 			return
 		}
-		counters.Cuts++
+		st.steps++
+		if depth > st.maxDepth {
+			st.maxDepth = depth
+		}
+		if c := st.counters; c != nil {
+			c.Steps++
+			if depth > c.MaxDepth {
+				c.MaxDepth = depth
+			}
+		}
+		if st.budget > 0 && st.steps >= st.budget && !st.hit {
+			st.hit = true
+			if st.cancel != nil {
+				st.cancel()
+			}
+		}
+		if st.onStep != nil {
+			st.onStep(st.steps, depth)
+		}
+	}
+	// The other hooks carry no context. They fire synchronously inside a trampoline iteration, i.e. between
+	// two step hooks of the same goroutine; a stale goroutine is at most finishing its last iteration, in
+	// which no cut, recover or VM instruction can occur any more (its continuation has already returned).
+	engine.VerifOnCut = func(before, after int) {
+		st := curp.Load()
+		if st == nil || st.counters == nil {
+			return
+		}
+		c := st.counters
+		c.Cuts++
 		d := before - after
 		if d > 16 {
 			d = 16
 		}
-		if counters.CutPopped == nil {
-			counters.CutPopped = map[int]int64{}
+		if c.CutPopped == nil {
+			c.CutPopped = map[int]int64{}
 		}
-		counters.CutPopped[d]++
+		c.CutPopped[d]++
 	}
 	engine.VerifOnRecover = func(before, after int, handled bool) {
-		if counters == nil {
+		st := curp.Load()
+		if st == nil || st.counters == nil {
 			return
 		}
-		counters.Recovers++
+		st.counters.Recovers++
 		if handled {
-			counters.Handled++
+			st.counters.Handled++
 		}
 	}
 	engine.VerifOnOp = func(op byte) {
-		if counters == nil {
+		st := curp.Load()
+		if st == nil || st.counters == nil {
 			return
 		}
-		if counters.Ops == nil {
-			counters.Ops = map[string]int64{}
+		c := st.counters
+		if c.Ops == nil {
+			c.Ops = map[string]int64{}
 		}
 		name := "?"
 		if int(op) < len(engine.VerifOpcodeNames) {
 			name = engine.VerifOpcodeNames[op]
 		}
-		counters.Ops[name]++
+		c.Ops[name]++
 	}
 }
 
 func uninstallHooks() {
+	curp.Store(nil)
 	engine.VerifOnStep, engine.VerifOnCut, engine.VerifOnRecover, engine.VerifOnOp = nil, nil, nil, nil
 }
